@@ -12,7 +12,9 @@ BOM = b"\xef\xbb\xbf"
 
 TAILS = [b"", b" ", b"\n\t ", b"\x00", b" \x00", b"\t\r\n \x00", b"\x00\x00", b" \x00\x00\x00", b"x", b" x", b"]", b"}", b",", b"1",
          b"\x00x", b" \x00 ", b"\x00 \x00", b" \x01\x02\x00", b"\x1f\x00", b"\x7f\x00", b" \xff", b"\x00\xff", b"//c", b"  \x00garbage\x00",
-         b"\x0b\x0c\x00", b" null", b"\x00\x00 "]
+         b"\x0b\x0c\x00", b" null", b"\x00\x00 ",
+         # things a lenient skipper might take for blanks, then a terminator; number-ish continuations
+         b"\xef\xbb\xbf\x00", b" \xef\xbb\xbf \x00", b"\xc2\xa0\x00", b"\xe2\x80\xa8\x00", b"\xc2\x85\x00", b"/**/\x00", b"//\n\x00", b"x1F", b"x1F;next", b"X0\x00", b"nf\x00", b"an\x00"]
 
 
 class C10(Prop):
